@@ -90,7 +90,8 @@ func ftoa(d float64, mode int, biasUp bool, ndigits int, buf []byte) ([]byte, in
 		} else {
 			x = uint64(word1) << (32 - i)
 		}
-		d2 = setWord0(float64(x), uint32((x>>32)-31*exp_mask))
+		d2 = float64(x)                           /* x holds the 32 most significant bits of d */
+		d2 = setWord0(d2, _word0(d2)-31*exp_msk1) /* adjust exponent */
 		i -= (bias + (p - 1) - 1) + 1
 		denorm = true
 	}
